@@ -535,9 +535,13 @@ fn escaped_char(input: Span) -> PResult<char> {
                 ),
                 |(code, term): (Span, bool)| {
                     if term || code.len() == 6 {
-                        std::char::from_u32(
+                        let code =
                             u32::from_str_radix(input_to_str(code).ok()?, 16)
-                                .ok()?,
+                                .ok()?;
+                        // Surrogates and too large values are not characters.
+                        Some(
+                            std::char::from_u32(code)
+                                .unwrap_or(char::REPLACEMENT_CHARACTER),
                         )
                     } else {
                         None
